@@ -396,6 +396,18 @@ def run_jpeg(R, quick):
             for _ in range(rng.randint(1, 4)):
                 m[rng.randrange(len(m))] = rng.randrange(256)
             items.append(("mutate", C, shape, bytes(m), None))
+        # targeted edits of the frame header (SOFn: marker, length, precision, height, width): absurd image
+        # dimensions make Pillow refuse the file with errors that are not OSError (DecompressionBombError)
+        for mk in (b"\xff\xc0", b"\xff\xc1", b"\xff\xc2"):
+            pos = buf.find(mk)
+            if pos >= 0 and pos + 9 <= len(buf):
+                for fld, val in ((5, 0xFFFF), (7, 0xFFFF), (5, 0x4000), (7, 0), (5, 0)):
+                    m = bytearray(buf)
+                    m[pos + fld:pos + fld + 2] = val.to_bytes(2, "big")
+                    if rng.random() < 0.5:       # both dimensions huge
+                        m[pos + 5:pos + 9] = b"\xff\xff\xff\xff"
+                    items.append(("sof-edit", C, shape, bytes(m), None))
+                break
         items.append(("extend", C, shape, buf + bytes(rng.randrange(256) for _ in range(rng.randint(1, 9))), None))
         items.append(("other_channels", 4 - C, shape, buf, None))
         s2 = list(shape)
